@@ -50,7 +50,8 @@ type Gen struct {
 	usesFrozen, freezesKnown, hasFreezes bool
 	needClosure bool
 	embedded map[string]bool
-	tracked map[string]bool
+	tracked map[string]bool // "pkg|struct": struct types that contracts of package pkg constrain with typed(); only functions of pkg track them
+	curPkg  string
 }
 
 func loadGen(repo string, patterns []string, stubDir string) (*Gen, error) {
@@ -256,7 +257,9 @@ func (g *Gen) embeddedByValue(t types.Type) bool {
 }
 
 // trackedStruct: struct types mentioned by typed(x, "T") in some contract or predicate. Only these carry a runtime
-// type tag (RType); every other allocation is tagged 0, so the allocates discipline only concerns them.
+// type tag (RType); every other allocation is tagged 0, so the allocates discipline only concerns them. The tag is
+// tracked only while verifying functions of the package whose contracts use typed() (independent of which other
+// packages happen to be loaded for a property).
 func (g *Gen) trackedStruct(t types.Type) bool {
 	if g.tracked == nil {
 		g.tracked = map[string]bool{}
@@ -269,14 +272,14 @@ func (g *Gen) trackedStruct(t types.Type) bool {
 				name := e.Args[1].Name
 				if p := g.tpkgs[pkg]; p != nil {
 					if obj := p.Scope().Lookup(name); obj != nil {
-						g.tracked[canonStructName(obj.Type())] = true
+						g.tracked[pkg+"|"+canonStructName(obj.Type())] = true
 					}
 				}
 				if k := strings.LastIndex(name, "."); k >= 0 {
 					for path, p := range g.tpkgs {
 						if strings.HasSuffix(path, "/"+name[:k]) || path == name[:k] {
 							if obj := p.Scope().Lookup(name[k+1:]); obj != nil {
-								g.tracked[canonStructName(obj.Type())] = true
+								g.tracked[pkg+"|"+canonStructName(obj.Type())] = true
 							}
 						}
 					}
@@ -303,7 +306,7 @@ func (g *Gen) trackedStruct(t types.Type) bool {
 			}
 		}
 	}
-	return g.tracked[canonStructName(t)]
+	return g.tracked[g.curPkg+"|"+canonStructName(t)]
 }
 
 func (g *Gen) anyFreezes() bool {
@@ -726,6 +729,7 @@ func (g *Gen) verifyFunc(fn *ssa.Function, con *Contract) (vc *VC, err error) {
 		}
 	}()
 	g.curEffects = &effects{fn: name}
+	g.curPkg = fn.Pkg.Pkg.Path()
 	g.allEffects[name] = g.curEffects
 	x := &Exec{g: g, vc: vc, fn: fn, con: con, vals: map[ssa.Value]string{}, tups: map[ssa.Value][]string{}, addrs: map[ssa.Value]*LValue{},
 		iters: map[ssa.Value]*iterInfo{}, constLen: map[ssa.Value]int{}, prefix: name, props: con.Props, wrap: con.Wrap, callOrd: map[string]int{},
@@ -832,6 +836,11 @@ func (g *Gen) verifyFunc(fn *ssa.Function, con *Contract) (vc *VC, err error) {
 			for _, cl := range cls {
 				x.obligeClause("assert", site+"/site-missing/"+clauseLabel(cl), "true", "false", cl)
 			}
+		}
+	}
+	for site := range con.SiteSets {
+		if !x.seenSites[site] {
+			vc.oblige(&Obl{Name: name + "/assert/" + strings.ReplaceAll(site, " ", "_") + "/site-missing/ghost-set", Kind: "assert", Props: con.Props, Reach: "true", Goal: "false", Src: "ghost assignment names a call site that does not exist: " + site})
 		}
 	}
 	if len(x.rets) > 0 {
@@ -954,6 +963,9 @@ func (x *Exec) frameGoals(st *State, only map[string]bool) ([]frameGoal, bool) {
 			alts := []string{eq("(select "+now+" x)", "(select "+before+" x)")}
 			for _, tn := range con.Allocates {
 				t := x.newEnv(st, st).resolveType(tn)
+				if !x.g.trackedStruct(t) {
+					continue
+				}
 				alts = append(alts, eq("(select "+now+" x)", vc.structTID(t)))
 			}
 			out = append(out, frameGoal{k, "allocates", "(forall ((x Int)) (! " + or(alts...) + " :pattern ((select " + now + " x))))"})
